@@ -185,15 +185,28 @@ def build_oracle(pid):
 
 
 def build_harness(cmd):
-    """go build -tags verif of harness/cmd/<cmd> against /repo's current working tree."""
-    shutil.copy(os.path.join(REPO, "go.sum"), os.path.join(HARNESS, "go.sum"))
+    """go build -tags verif of harness/cmd/<cmd> against the tree under test (/repo's current
+    working tree, or VERIF_REPO).  The module file and the binary are kept per tree under test,
+    so that checks running at the same time against different trees (seeded changes in scratch
+    worktrees) never execute one another's binaries."""
+    tag = "main" if REPO == "/repo" else hashlib.sha1(REPO.encode()).hexdigest()[:10]
+    mdir = os.path.join(HARNESS, ".mods", tag)
+    os.makedirs(mdir, exist_ok=True)
+    shutil.copy(os.path.join(REPO, "go.sum"), os.path.join(mdir, "go.sum"))
     gomod = open(os.path.join(HARNESS, "go.mod.tmpl")).read().replace("@REPO@", REPO)
-    gm = os.path.join(HARNESS, "go.mod")
+    gm = os.path.join(mdir, "go.mod")
     if not os.path.exists(gm) or open(gm).read() != gomod:
         open(gm, "w").write(gomod)
-    os.makedirs(os.path.join(HARNESS, "bin"), exist_ok=True)
-    exe = os.path.join(HARNESS, "bin", cmd)
-    rc, out = run(["go", "build", "-tags", "verif", "-o", exe, "./cmd/" + cmd], cwd=HARNESS, env=GOENV, timeout=1800)
+    # keep a go.mod in the module root as well (editors, go vet by hand); it always names /repo
+    root_gm = os.path.join(HARNESS, "go.mod")
+    root_mod = open(os.path.join(HARNESS, "go.mod.tmpl")).read().replace("@REPO@", "/repo")
+    if not os.path.exists(root_gm) or open(root_gm).read() != root_mod:
+        open(root_gm, "w").write(root_mod)
+        shutil.copy(os.path.join("/repo", "go.sum"), os.path.join(HARNESS, "go.sum"))
+    bdir = os.path.join(HARNESS, "bin") if tag == "main" else os.path.join(HARNESS, "bin", tag)
+    os.makedirs(bdir, exist_ok=True)
+    exe = os.path.join(bdir, cmd)
+    rc, out = run(["go", "build", "-modfile", gm, "-tags", "verif", "-o", exe, "./cmd/" + cmd], cwd=HARNESS, env=GOENV, timeout=1800)
     if rc != 0:
         return None, out
     return exe, out
